@@ -219,22 +219,22 @@ func tail(s string, n int) string {
 
 // Outcome is the aggregated result of a supervised search.
 type Outcome struct {
-	Runs         int64
-	Events       int64
-	SimNanos     int64
-	Faults       map[string]int
-	Probes       map[string]int
-	Sigs         map[uint64]struct{}
-	SigsCapped   bool
-	NontrivialI  []uint64
-	Failures     map[string]*Result // first failing run per failure key
-	FailureKeys  []string
-	WorkerCrash  int
-	Infra        []string
-	Wall         time.Duration
-	SearchWall   time.Duration
-	Samples      []interface{}
-	ShrinkEvals  int
+	Runs          int64
+	Events        int64
+	SimNanos      int64
+	Faults        map[string]int
+	Probes        map[string]int
+	Sigs          map[uint64]struct{}
+	SigsCapped    bool
+	NontrivialI   []uint64
+	Failures      map[string]*Result // first failing run per failure key
+	FailureKeys   []string
+	WorkerCrash   int
+	Infra         []string
+	Wall          time.Duration
+	SearchWall    time.Duration
+	Samples       []interface{}
+	ShrinkEvals   int
 	Confirmations []string
 	Unconfirmed   []string
 	ILSigs        map[uint64]struct{}
@@ -416,18 +416,18 @@ func (s *Supervisor) Search(budget time.Duration) *Outcome {
 
 // ReplayFile is the on-disk form of a failing run.
 type ReplayFile struct {
-	Property  string   `json:"property"`
-	Engine    string   `json:"engine"`
-	Tier      string   `json:"tier"`
-	Seed      uint64   `json:"seed"`
-	RunIndex  uint64   `json:"run_index"`
-	Minimised bool     `json:"minimised"`
-	Tape      []uint32 `json:"tape"`
+	Property  string            `json:"property"`
+	Engine    string            `json:"engine"`
+	Tier      string            `json:"tier"`
+	Seed      uint64            `json:"seed"`
+	RunIndex  uint64            `json:"run_index"`
+	Minimised bool              `json:"minimised"`
+	Tape      []uint32          `json:"tape"`
 	Script    []json.RawMessage `json:"script,omitempty"`
-	Violation Failure  `json:"violation"`
-	Log       []string `json:"event_log,omitempty"`
-	RepoTree  string   `json:"repo_tree,omitempty"`
-	Note      string   `json:"note,omitempty"`
+	Violation Failure           `json:"violation"`
+	Log       []string          `json:"event_log,omitempty"`
+	RepoTree  string            `json:"repo_tree,omitempty"`
+	Note      string            `json:"note,omitempty"`
 }
 
 func hasKey(r *Result, key string) bool {
